@@ -47,8 +47,18 @@ def select_before_assign(ctx, clause):
                 elif isinstance(x, ast.AugAssign) and isinstance(x.target, ast.Name) and x.target.id == rhs.id:
                     tgt = x.value
                 if tgt is not None:
-                    good = isinstance(tgt, ast.Call) and isinstance(tgt.func, ast.Attribute) \
-                        and tgt.func.attr == "_select_valid_statements_of_shape"
+                    def only_selected(e, depth=0):
+                        """a call of the selection, a concatenation of such values, or a local that only ever holds such values"""
+                        if isinstance(e, ast.Call) and isinstance(e.func, ast.Attribute) and e.func.attr == "_select_valid_statements_of_shape":
+                            return True
+                        if isinstance(e, ast.BinOp) and isinstance(e.op, ast.Add):
+                            return only_selected(e.left, depth) and only_selected(e.right, depth)
+                        if isinstance(e, ast.Name) and depth < 4 and e.id != rhs.id:
+                            defs = [y.value for y in walk_own(f.node) if isinstance(y, (ast.Assign, ast.AugAssign)) and any(
+                                isinstance(t_, ast.Name) and t_.id == e.id for t_ in (y.targets if isinstance(y, ast.Assign) else [y.target]))]
+                            return bool(defs) and all(only_selected(d_, depth + 1) for d_ in defs)
+                        return False
+                    good = only_selected(tgt)
                     if not good:
                         ok, why = False, "`%s` also receives `%s`" % (rhs.id, norm(tgt)[:50])
             # tuning happens between selection and the store, on the same list
